@@ -81,6 +81,7 @@ MUTANTS = [
     {"id": "C06-revert-iterate-lazy-step", "prop": "C06", "revert": ["SUBJECT:iterate does not call f until"]},
     {"id": "C06-revert-concat-resumable", "prop": "C06", "revert": ["SUBJECT:concat survives an exception"]},
     {"id": "C06-revert-interpose-lazy", "prop": "C06", "revert": ["SUBJECT:interpose does not realize the element after"]},
+    {"id": "C06-revert-with-meta-empty", "prop": "C06", "revert": ["SUBJECT:with-meta on a realized empty lazy sequence"]},
     {"id": "C06-map-calls-f-twice", "prop": "C06", "edits": [
         R(CORE, "      (cons (f (first coll)) (map f (rest coll))))))\n  ([f coll & colls]",
           "      (do (f (first coll)) (cons (f (first coll)) (map f (rest coll)))))))\n  ([f coll & colls]")]},
